@@ -1,7 +1,7 @@
 (* IterProofs.v — U32Digits (the half-digit state machine of src/biguint/iter.rs) refines a
    double-ended queue of the remaining base-2^32 digits, under any interleaving of
    next / next_back / nth / len / size_hint / last / count; U64Digits likewise. *)
-From BigNum Require Import Base BaseLemmas SrcLit Iter SpecBytes BytesLemmas.
+From BigNum Require Import Base BaseLemmas SrcLit SrcLitLemmas Iter SpecBytes BytesLemmas.
 Open Scope Z_scope.
 
 (** ** list helpers *)
@@ -53,15 +53,6 @@ Definition iter_ok (p : iter_params) : bool :=
   && btest_eqb (itp_back_end p) (bt false true true) && Bool.eqb (itp_back_reset p) true
   && (itp_len_mul p =? 2) && Bool.eqb (itp_len_sub1 p) true && Bool.eqb (itp_len_lhz_neg p) false
   && Bool.eqb (itp_len_sub2 p) true && Bool.eqb (itp_len_nil_neg p) true && Bool.eqb (itp_last_back p) true.
-
-Lemma cmpop_eqb_true a b : cmpop_eqb a b = true -> a = b.
-Proof. destruct a, b; try discriminate; reflexivity. Qed.
-Lemma btest_eqb_true s t : btest_eqb s t = true -> s = t.
-Proof.
-  destruct s as [a b c], t as [a' b' c']. unfold btest_eqb. cbn [bt_neg1 bt_and bt_neg2].
-  rewrite !andb_true_iff. intros [[H1 H2] H3].
-  apply Bool.eqb_prop in H1, H2, H3. congruence.
-Qed.
 
 (** every field is pinned: the accepted parameter record is exactly [iter_std] *)
 Lemma iter_ok_inv p : iter_ok p = true -> p = iter_std.
